@@ -56,14 +56,33 @@ func sequences(k *bnet.Keys, quick bool) [][]bnet.Item {
 		garbage[len(garbage)-1] ^= 0x01
 		otherPrev := []byte("another-previous-signature-00000")
 		nonMember := append([]byte{}, k.Partial(c, 1, prev).PartialSig...)
-		nonMember[0], nonMember[1] = 0, byte(n) // index n is not in the group
+		nonMember[0], nonMember[1] = 0, byte(50) // index 50 is not in the group
+		p1 := prev
+		if k.SchemeID != crypto.DefaultSchemeID {
+			p1 = nil
+		}
+		// every share index nobody in the group holds, up to one past the largest: partials that lie ON the
+		// group's polynomial there (computable by a coalition) — only the membership check can refuse them
+		var onPoly []bnet.Item
+		maxIdx := 0
+		for _, ix := range k.Indices {
+			if ix > maxIdx {
+				maxIdx = ix
+			}
+		}
+		for ix := 0; ix <= maxIdx+1; ix++ {
+			if !k.IsMemberIndex(ix) {
+				onPoly = append(onPoly, bnet.Item{Label: fmt.Sprintf("valid-on-polynomial-at-non-member-index(%d)", ix), From: c, P: k.PartialRaw(1, prev, k.SignAtIndex(ix, 1, p1)), AtRound: 1})
+			}
+		}
 		items := []bnet.Item{
 			{Label: fmt.Sprintf("invalid-sig-under-index(m%d)", honest), From: c, P: k.PartialRaw(1, prev, garbage), AtRound: 1},
 			{Label: fmt.Sprintf("valid-for-round-2(m%d)", c), From: c, P: k.Partial(c, 2, prev), AtRound: 1},
 			{Label: fmt.Sprintf("round-2-sig-relabelled-round-1(m%d)", c), From: c, P: k.PartialRaw(1, prev, k.Partial(c, 2, prev).PartialSig), AtRound: 1},
-			{Label: fmt.Sprintf("non-member-index(%d)", n), From: c, P: k.PartialRaw(1, prev, nonMember), AtRound: 1},
+			{Label: "garbage-at-non-member-index(50)", From: c, P: k.PartialRaw(1, prev, nonMember), AtRound: 1},
 			{Label: "own-partial-of-V-echoed", From: c, P: k.Partial(0, 1, prev), AtRound: 1},
 		}
+		items = append(items, onPoly...)
 		if k.SchemeID == crypto.DefaultSchemeID {
 			items = append(items,
 				bnet.Item{Label: fmt.Sprintf("valid-for-other-previous(m%d)", c), From: c, P: k.Partial(c, 1, otherPrev), AtRound: 1},
@@ -121,6 +140,7 @@ type job struct {
 	n, t   int
 	be     string
 	bound  int
+	idx    []int // share indices (nil: 0..n-1)
 }
 
 func main() {
@@ -132,13 +152,14 @@ func main() {
 	genesis := vrt.Epoch.Add(2 * time.Second).Unix()
 	var js []job
 	if c.Quick() {
-		js = []job{{crypto.DefaultSchemeID, 3, 2, "memdb", 1}, {crypto.DefaultSchemeID, 4, 3, "memdb", 1}, {crypto.UnchainedSchemeID, 5, 3, "memdb", 1}, {crypto.ShortSigSchemeID, 3, 2, "bolt-trimmed", 0}}
+		js = []job{{crypto.DefaultSchemeID, 3, 2, "memdb", 1, nil}, {crypto.DefaultSchemeID, 4, 3, "memdb", 1, nil}, {crypto.UnchainedSchemeID, 5, 3, "memdb", 1, nil}, {crypto.ShortSigSchemeID, 3, 2, "bolt-trimmed", 0, nil},
+			{crypto.DefaultSchemeID, 4, 3, "memdb", 1, []int{0, 1, 2, 4}}, {crypto.UnchainedSchemeID, 4, 3, "memdb", 0, []int{1, 2, 4, 5}}}
 	} else {
 		for _, sc := range crypto.ListSchemes() {
 			for _, nt := range [][2]int{{3, 2}, {4, 3}, {5, 3}, {5, 4}, {6, 4}, {7, 4}} {
-				js = append(js, job{sc, nt[0], nt[1], "memdb", 2})
+				js = append(js, job{sc, nt[0], nt[1], "memdb", 2, nil})
 			}
-			js = append(js, job{sc, 4, 3, "bolt-trimmed", 1})
+			js = append(js, job{sc, 4, 3, "bolt-trimmed", 1, nil}, job{sc, 4, 3, "memdb", 2, []int{0, 1, 2, 4}}, job{sc, 5, 3, "memdb", 1, []int{1, 2, 4, 5, 7}})
 		}
 	}
 	var jobs []vlib.E1Job
@@ -146,9 +167,12 @@ func main() {
 	for _, j := range js {
 		j := j
 		k := bnet.NewKeys(j.scheme, j.n, j.t, 3*time.Second, genesis)
+		if j.idx != nil {
+			k = bnet.NewKeysIdx(j.scheme, j.idx, j.t, 3*time.Second, genesis)
+		}
 		h := &bnet.VAdv{Keys: k, Backend: j.be, Seqs: sequences(k, c.Quick()), Rounds: 2}
 		total += len(h.Seqs)
-		jobs = append(jobs, vlib.E1Job{Name: fmt.Sprintf("c03-thr/%s/n=%d/t=%d/%s/seqs=%d", j.scheme, j.n, j.t, j.be, len(h.Seqs)), Bound: j.bound,
+		jobs = append(jobs, vlib.E1Job{Name: fmt.Sprintf("c03-thr/%s/n=%d/t=%d/idx=%v/%s/seqs=%d", j.scheme, j.n, j.t, k.Indices, j.be, len(h.Seqs)), Bound: j.bound,
 			Run: func(devs []vrt.Dev) *explore.Exec {
 				r := h.Run(devs, false)
 				x := h.Judge(r, "c03")
